@@ -2,6 +2,8 @@ package sim
 
 import (
 	"fmt"
+	apps "k8s.io/api/apps/v1"
+	corev1 "k8s.io/api/core/v1"
 	"strings"
 
 	rolloutsv1beta1 "github.com/openkruise/rollouts/api/v1beta1"
@@ -189,8 +191,16 @@ func (VoidMonitor) OnWrite(x *Ctx, w *Write) {
 		switch {
 		case !ts.CanarySvcExists:
 			voidOK, voidWhy = false, "the canary Service does not exist"
-		case ts.CanarySvcRevision != shortHash(v.UpdateRev) && !requested(x.Mon, "rollback", "release3"):
+		case ts.CanarySvcRevision != shortHash(v.UpdateRev) && !requested(x.Mon, "rollback", "release3") && !(sc.Style == "canary" && sc.PatchPodMeta):
+			// (with patchPodTemplateMetadata the canary Deployment's template, hence its hash, differs from the
+			// workload's own update revision: there only the selection of the pods themselves is judged)
 			voidOK, voidWhy = false, fmt.Sprintf("the canary Service selects revision %q, the revision being released is %q", ts.CanarySvcRevision, shortHash(v.UpdateRev))
+		default:
+			// "selects the new revision" on the pods themselves: the whole selector (not only the revision label) must
+			// match the new-revision pods that exist
+			if newPods, selected := canarySelection(x.W, sc, v); newPods > 0 && selected == 0 && !requested(x.Mon, "rollback", "release3") {
+				voidOK, voidWhy = false, fmt.Sprintf("the canary Service's selector matches none of the %d new-revision pods", newPods)
+			}
 		}
 	}
 	// pinned: a pinned stable Service that still receives traffic needs pods of that revision
@@ -334,4 +344,63 @@ func (RollbackOrderMonitor) OnState(x *Ctx, quiescent bool) {
 		return
 	}
 	x.Count("C10 settled states after rollback judged")
+}
+
+// canarySelection counts the live pods of the revision being released and how many of them the canary Service's
+// selector matches.
+func canarySelection(w *World, sc *Scenario, v *WorkloadView) (newPods, selected int) {
+	csvc := &corev1.Service{}
+	if !w.Get(csvc, sc.ns(), AppName+"-canary") {
+		return 0, 0
+	}
+	rev := shortHash(v.UpdateRev)
+	// canary style: the new-revision pods are the pods of the canary Deployment's ReplicaSets
+	canaryRS := map[string]bool{}
+	if sc.Style == "canary" {
+		canaryDeploys := map[string]bool{}
+		for _, o := range w.Store.PeekAll("deployments") {
+			if d, ok := o.(*apps.Deployment); ok && d.Namespace == sc.ns() && d.Name != AppName && d.DeletionTimestamp == nil {
+				canaryDeploys[string(d.UID)] = true
+			}
+		}
+		for _, o := range w.Store.PeekAll("replicasets") {
+			if rs, ok := o.(*apps.ReplicaSet); ok && rs.Namespace == sc.ns() {
+				for _, ref := range rs.OwnerReferences {
+					if canaryDeploys[string(ref.UID)] {
+						canaryRS[string(rs.UID)] = true
+					}
+				}
+			}
+		}
+	}
+	for _, o := range w.Store.PeekAll("pods") {
+		p, ok := o.(*corev1.Pod)
+		if !ok || p.Namespace != sc.ns() || p.DeletionTimestamp != nil {
+			continue
+		}
+		if sc.Style == "canary" {
+			owned := false
+			for _, ref := range p.OwnerReferences {
+				if canaryRS[string(ref.UID)] {
+					owned = true
+				}
+			}
+			if !owned {
+				continue
+			}
+		} else if p.Labels[apps.DefaultDeploymentUniqueLabelKey] != rev {
+			continue
+		}
+		newPods++
+		match := true
+		for k, val := range csvc.Spec.Selector {
+			if p.Labels[k] != val {
+				match = false
+			}
+		}
+		if match {
+			selected++
+		}
+	}
+	return
 }
